@@ -45,7 +45,7 @@ CLAIMED = {
                 design='DESIGN.md 4/C07'),
     'C14': dict(text='Bounded model checking of the crate\'s Graphviz descriptions with dot::render replaced by its contract (node statements from nodes()/node_id/node_label, edge statements from edges()/source/target/edge_label): the real MIR of BDDGraph (src/bdd_io.rs) on the canonical diagram of every function of 1..2 variables with an unknown filter - ids distinct, edges between declared nodes, read back from the root along T/F edges the description evaluates to the function, only the leaf opposite to the filter is missing - and of SymbolicParseTree (src/parser_io.rs) on formula sketches - shared identical sub-terms, one root, labels / edge labels / out-degrees read back as a term give the parsed tree; main hands the evaluated diagram with the filter (-d) and the parsed tree (-p) to the renderer. Rendered addresses are identified with node structure (sharing: C13). The DOT text itself is checked on replayed cases only.',
                 design='DESIGN.md 4/C14'),
-    'C15': dict(text='Translation validation of n_queens_gen: for every board size in the bound the real binary\'s output is parsed by an independent front end (and the real parser) and the solver decides that the emitted formula and the n-queens specification agree on ALL 2^(n*n) assignments; for n <= 4 the real evaluator\'s truth table is also compared.', design='DESIGN.md 4/C15', category='translation_validation', engine='gencheck', note=TV_NOTE, technique='translation validation: real generator output vs independent specification, equivalence over all assignments decided by z3'),
+    'C15': dict(text='Translation validation of n_queens_gen: for every board size in the bound the real binary\'s output is parsed by an independent front end (and the real parser) and the solver decides that the emitted formula and the n-queens specification agree on ALL 2^(n*n) assignments (n <= 10, 11 thorough, as one query; n = 9, 11, 12 and up to 20 thorough through row / column / diagonal lemmas, each a solver query, because the monolithic query is a pigeonhole problem); for n <= 4 the real evaluator\'s truth table is also compared.', design='DESIGN.md 4/C15', category='translation_validation', engine='gencheck', note=TV_NOTE, technique='translation validation: real generator output vs independent specification, equivalence over all assignments decided by z3'),
     'C16': dict(text='Translation validation of max_clique_gen over all simple graphs on <= 3 vertices (one-directional and symmetric), duplicates, self loops, seeded multigraphs, helper-name collisions, x {-u} x {-a}: emitted formula == maximum-clique (all-clique) specification on every vertex subset.', design='DESIGN.md 4/C16', category='translation_validation', engine='gencheck', note=TV_NOTE, technique='translation validation: real generator output vs independent specification, equivalence over all assignments decided by z3'),
     'C17': dict(text='Translation validation of sudoku_gen for r = 1, 2 over a family of puzzle texts (empty, full, short, over-long, contradictory, ASCII and non-ASCII blanks and whitespace) and r = 3 for seeded puzzles: emitted formula == sudoku specification on all assignments (64 / 729 variables).', design='DESIGN.md 4/C17', category='translation_validation', engine='gencheck', note=TV_NOTE, technique='translation validation: real generator output vs independent specification, equivalence over all assignments decided by z3'),
     'C18': dict(text='Bounded model checking of generate_graph from the random_graph_gen binary\'s MIR (V = 0..3 concrete, E an unknown usize, -u unknown, thread_rng opaque, shuffle an arbitrary permutation given by an unknown one-hot matrix): refused exactly when infeasible, otherwise exactly E distinct edges between distinct vertices with no pair in both orientations under -u, for every permutation; requests, --complete, --convert and --colors are validated through the real binary (for --colors the solver decides both the covering-clique and the k-colourability side).', design='DESIGN.md 4/C18'),
